@@ -77,7 +77,7 @@ GLM_FUNC_QUALIFIER glm_vec4 glm_vec4_cross(glm_vec4 v1, glm_vec4 v2)
 GLM_FUNC_QUALIFIER glm_vec4 glm_vec4_normalize(glm_vec4 v)
 {
 	glm_vec4 const dot0 = glm_vec4_dot(v, v);
-	glm_vec4 const isr0 = _mm_rsqrt_ps(dot0);
+	glm_vec4 const isr0 = _mm_div_ps(_mm_set1_ps(1.0f), _mm_sqrt_ps(dot0));
 	glm_vec4 const mul0 = _mm_mul_ps(v, isr0);
 	return mul0;
 }
@@ -85,10 +85,9 @@ GLM_FUNC_QUALIFIER glm_vec4 glm_vec4_normalize(glm_vec4 v)
 GLM_FUNC_QUALIFIER glm_vec4 glm_vec4_faceforward(glm_vec4 N, glm_vec4 I, glm_vec4 Nref)
 {
 	glm_vec4 const dot0 = glm_vec4_dot(Nref, I);
-	glm_vec4 const sgn0 = glm_vec4_sign(dot0);
-	glm_vec4 const mul0 = _mm_mul_ps(sgn0, _mm_set1_ps(-1.0f));
-	glm_vec4 const mul1 = _mm_mul_ps(N, mul0);
-	return mul1;
+	glm_vec4 const neg0 = _mm_cmplt_ps(dot0, _mm_setzero_ps());	// dot(Nref, I) < 0 ? N : -N
+	glm_vec4 const inv0 = _mm_sub_ps(_mm_setzero_ps(), N);
+	return _mm_or_ps(_mm_and_ps(neg0, N), _mm_andnot_ps(neg0, inv0));
 }
 
 GLM_FUNC_QUALIFIER glm_vec4 glm_vec4_reflect(glm_vec4 I, glm_vec4 N)
@@ -115,8 +114,8 @@ GLM_FUNC_QUALIFIER __m128 glm_vec4_refract(glm_vec4 I, glm_vec4 N, glm_vec4 eta)
 	glm_vec4 const mul2 = _mm_mul_ps(mul0, sub1);				// eta * eta * (1.0 - dot(N, I) * dot(N, I))
 	glm_vec4 const sub0 = _mm_sub_ps(_mm_set1_ps(1.0f), mul2);  // 1.0 - eta * eta * (1.0 - dot(N, I) * dot(N, I))
 
-	if(_mm_movemask_ps(_mm_cmplt_ss(sub0, _mm_set1_ps(0.0f))) == 0)
-		return _mm_set1_ps(0.0f);
+	if(_mm_movemask_ps(_mm_cmpge_ps(sub0, _mm_setzero_ps())) == 0)	// !(k >= 0): total internal reflection
+		return _mm_setzero_ps();
 
 	glm_vec4 const sqt0 = _mm_sqrt_ps(sub0);
 	glm_vec4 const mad0 = glm_vec4_fma(eta, dot0, sqt0);
